@@ -44,14 +44,24 @@ static void learn_ids15(void) {
     }
 }
 
-/* step code: ((state*8 + event) * 8 + elapsed_idx) ; elapsed_idx: 0:0 1:t-1 2:t 3:t+1 4:10t */
-static long elapsed_of(int idx, long t) { switch (idx) { case 0: return 0; case 1: return t - 1; case 2: return t; case 3: return t + 1; case 4: return 10 * t; default: return 31; } }
+/* step code: (((state*NIN + input) * NEL + elapsed class) * NORG + clock origin)
+ * elapsed classes: 0, t-1, t, t+1, 10t, 31 s, and long silences around the 15/16/32-bit boundaries of a seconds counter;
+ * clock origins (reading of the seconds clock when the state was entered): ordinary, 0, and readings whose low 16 / 31 / 32 bits are all ones */
+#define NEL 12
+#define NORG 6
+static const uint64_t ORG_S[NORG] = {1000ull, 0ull, 65535ull, 196607ull, 2147483647ull, 4294967295ull};
+static long long elapsed_of(int idx, long t) {
+    switch (idx) { case 0: return 0; case 1: return t - 1; case 2: return t; case 3: return t + 1; case 4: return 10 * t; case 5: return 31;
+                   case 6: return 32767; case 7: return 32768; case 8: return 65535; case 9: return 65536; case 10: return 65536 + t; default: return 4294967297ll; }
+}
+static void set_origin(int oi) { extern uint64_t vf_clock_origin; vf_clock_origin = ORG_S[oi] * 1000ull; }
 static void step15_name(int code, char *buf, size_t cap) {
-    int ei = code % 8, e = (code / 8) % 8, s = code / 64;
-    snprintf(buf, cap, "session step: state %s, elapsed class %d (0,t-1,t,t+1,10t), event %s", SNAME[s], ei, EVNAME[e]);
+    int oi = code % NORG, ei = (code / NORG) % NEL, e = (code / NORG / NEL) % 8, s = code / NORG / NEL / 8;
+    snprintf(buf, cap, "session step: state %s entered at clock %llu s, elapsed class %d, event %s", SNAME[s], (unsigned long long)ORG_S[oi], ei, EVNAME[e]);
 }
 static void step15(int code) {
-    int ei = code % 8, e = (code / 8) % 8, s = code / 64;
+    int oi = code % NORG, ei = (code / NORG) % NEL, e = (code / NORG / NEL) % 8, s = code / NORG / NEL / 8;
+    set_origin(oi);
     vf_world_reset();
     automata *a = init_automata_session();
     if (ENTRY15[s] >= 0) switch_state_session(a, ENTRY15[s], "enter");
@@ -61,7 +71,7 @@ static void step15(int code) {
         vf_violation(sig, "state %s has timeout %ld: it can never expire back to Nascent", SNAME[s], t);
         return;
     }
-    long el = elapsed_of(ei, t);
+    long long el = elapsed_of(ei, t);
     if (el < 0) return;
     W.now_ms += (uint64_t)el * 1000;
     switch_state_session(a, e, "step");
@@ -70,10 +80,10 @@ static void step15(int code) {
     int timed_out = (t > 0 && el > t);
     int exp1 = timed_out ? S_NASCENT : delta15(s, e), exp2 = timed_out ? delta15(S_NASCENT, e) : exp1;
     vf_outcome(vf_hash64(&got, sizeof got, (uint64_t)code));
-    if (A.verbose) printf("    %s --%s (elapsed %ld s, timeout %ld s)--> %s\n", SNAME[s], EVNAME[e], el, t, got < 0 ? "?" : SNAME[got]);
+    if (A.verbose) printf("    %s (entered at clock %llu s) --%s (elapsed %lld s, timeout %ld s)--> %s\n", SNAME[s], (unsigned long long)ORG_S[oi], EVNAME[e], el, t, got < 0 ? "?" : SNAME[got]);
     if (got != exp1 && got != exp2) {
         char sig[120]; snprintf(sig, sizeof sig, "session:(%s,%s,%s)", SNAME[s], EVNAME[e], timed_out ? "expired" : "in-time");
-        vf_violation(sig, "session automaton in %s, %ld s after its last event (timeout %ld s), event %s: goes to %s, the life-cycle demands %s%s%s", SNAME[s], el, t, EVNAME[e],
+        vf_violation(sig, "session automaton in %s (entered at clock reading %llu s), %lld s after its last event (timeout %ld s), event %s: goes to %s, the life-cycle demands %s%s%s", SNAME[s], (unsigned long long)ORG_S[oi], el, t, EVNAME[e],
                      got < 0 ? "an unknown state" : SNAME[got], SNAME[exp1], exp2 != exp1 ? " or " : "", exp2 != exp1 ? SNAME[exp2] : "");
     }
 }
@@ -141,11 +151,12 @@ static void learn_ids14(void) {
 }
 /* step code: (state * 384 + (input+128)) * 8 + elapsed_idx ; elapsed_idx 0:0 1:t-1 2:t 3:t+1 4:10t 5:31 */
 static void step14_name(int code, char *buf, size_t cap) {
-    int ei = code % 8, in = (code / 8) % 384 - 128, s = code / 8 / 384;
-    snprintf(buf, cap, "mapping step: state %s, elapsed class %d (0,t-1,t,t+1,10t,31s), input %d", QNAME[s], ei, in);
+    int oi = code % NORG, ei = (code / NORG) % NEL, in = (code / NORG / NEL) % 384 - 128, s = code / NORG / NEL / 384;
+    snprintf(buf, cap, "mapping step: state %s entered at clock %llu s, elapsed class %d, input %d", QNAME[s], (unsigned long long)ORG_S[oi], ei, in);
 }
 static void step14(int code) {
-    int ei = code % 8, in = (code / 8) % 384 - 128, s = code / 8 / 384;
+    int oi = code % NORG, ei = (code / NORG) % NEL, in = (code / NORG / NEL) % 384 - 128, s = code / NORG / NEL / 384;
+    set_origin(oi);
     vf_world_reset();
     automata *a = enter14(s);
     long t = a->states_table[a->current_state].timeout;
@@ -154,7 +165,7 @@ static void step14(int code) {
         vf_violation(sig, "state %s has timeout %ld s; active states need a non-zero timeout of at most 30 s", QNAME[s], t);
         return;
     }
-    long el = elapsed_of(ei, t);
+    long long el = elapsed_of(ei, t);
     if (el < 0 || (s == Q_IDLE && ei >= 1 && ei <= 4)) return;
     W.now_ms += (uint64_t)el * 1000;
     switch_state_mapping(a, in, "step");
@@ -162,11 +173,11 @@ static void step14(int code) {
     int got = abs14(a->current_state);
     int timed_out = (s != Q_IDLE && el > t);
     int exp1 = timed_out ? Q_IDLE : delta14(s, in), exp2 = (timed_out && in == 0x00) ? Q_CMD : exp1;
-    vf_outcome(vf_hash64(&got, sizeof got, (uint64_t)(code / 8)));
-    if (A.verbose) printf("    %s --input %d (elapsed %ld s, timeout %ld s)--> %s\n", QNAME[s], in, el, t, got < 0 ? "?" : QNAME[got]);
+    vf_outcome(vf_hash64(&got, sizeof got, (uint64_t)(code / NORG / NEL)));
+    if (A.verbose) printf("    %s (entered at clock %llu s) --input %d (elapsed %lld s, timeout %ld s)--> %s\n", QNAME[s], (unsigned long long)ORG_S[oi], in, el, t, got < 0 ? "?" : QNAME[got]);
     if (got != exp1 && got != exp2) {
         char sig[120]; snprintf(sig, sizeof sig, "mapping:(%s,%s,%s)", QNAME[s], inlabel(in), timed_out ? "expired" : "in-time");
-        vf_violation(sig, "mapping engine in %s, %ld s after its last input (timeout %ld s), input %d: goes to %s, the state machine demands %s", QNAME[s], el, t, in, got < 0 ? "an unknown state" : QNAME[got], QNAME[exp1]);
+        vf_violation(sig, "mapping engine in %s (entered at clock reading %llu s), %lld s after its last input (timeout %ld s), input %d: goes to %s, the state machine demands %s", QNAME[s], (unsigned long long)ORG_S[oi], el, t, in, got < 0 ? "an unknown state" : QNAME[got], QNAME[exp1]);
     }
 }
 
@@ -292,16 +303,15 @@ int main(int argc, char **argv) {
     if (A.replay) { A.verbose = 1; return e1_replay_file(closure ? &ccfg : &stepcfg, A.replay); }
     double t0 = vf_now_s();
     if (!closure) {
-        int n = mode == 15 ? S_N * 8 * 8 : Q_N * 384 * 8;
+        int n = (mode == 15 ? S_N * 8 : Q_N * 384) * NEL * NORG;
         for (int code = 0; code < n; code++) {
-            if (mode == 15 && code % 8 > 4) continue;
-            if (mode == 14 && code % 8 > 5) continue;
             static int p[1]; p[0] = code; e1_manual_path(&stepcfg, p, 1);
             step_apply(code);
         }
+        { extern uint64_t vf_clock_origin; vf_clock_origin = 1000000ull; }
         R.evaluations = evals; R.transitions = evals; R.states = mode == 15 ? S_N : Q_N; R.exhaustive = 1;
-        if (mode == 15) vf_sample("4 states x events 0..7 x elapsed {0,t-1,t,t+1,10t}: e.g. (Complete, reset, 0 s) must go to Nascent");
-        else vf_sample("3 states x inputs -128..255 x elapsed {0,t-1,t,t+1,10t,31 s}: e.g. (Command, input 2, 0 s) must go to Emit; (Command, input 6, 0 s) must stay");
+        if (mode == 15) vf_sample("4 states x events 0..7 x elapsed {0,t-1,t,t+1,10t,31,32767,32768,65535,65536,65536+t,2^32+1 s} x entry clock {1000,0,65535,196607,2^31-1,2^32-1 s}: e.g. (Complete, reset, 0 s) must go to Nascent");
+        else vf_sample("3 states x inputs -128..255 x the same 12 elapsed classes x 6 entry clocks: e.g. (Command, input 2, 0 s) must go to Emit; (Command, input 6, 0 s) must stay");
     } else {
         /* two clock origins: the time-abstracted key is only sound if behaviour is translation invariant */
         e1_stats st[4];
